@@ -117,6 +117,11 @@ def gen_cases(ctx):
                 w = 16 if rep == 0 or q else pick(rng, [16, 7, 64])
                 n = 20000 if w <= 16 else 60000
                 yield {"type": "uniform", "family": fam, "width": w, "depth": d, "n_keys": n, "seed": int(rng.integers(0, 2**62))}
+        # widths that are not powers of two (a mask-and-fold instead of a modulo is exact only for powers of two) and
+        # depths that are not multiples of four (row-group kernels), rotating over the families
+        for j, (w, d) in enumerate(((48, 3), (100, 5), (7, 6), (96, 7))):
+            fam = fams[(j + rep) % 4]
+            yield {"type": "uniform", "family": fam, "width": w, "depth": min(d, 8), "n_keys": 20000 if w < 64 else 40000, "seed": int(rng.integers(0, 2**62))}
         for w in (32, 64, 128):
             yield {"type": "zipf", "width": w, "n_keys": 5000, "N": 200000, "seed": int(rng.integers(0, 2**62))}
         rep += 1
